@@ -66,10 +66,13 @@ def run_one(m, root="/repo", verbose=False):
     try:
         res = []
         for pid in m["pids"]:
-            p = subprocess.run([os.path.join(VERIF, "check"), pid, "--root", d, "--no-evidence", "--tier", "quick"],
-                               capture_output=True, text=True, cwd=VERIF, timeout=600,
-                               env=dict(os.environ, VERIF_NO_SELFTEST="1"))
-            res.append((pid, p.returncode, p.stdout + p.stderr))
+            try:
+                p = subprocess.run([os.path.join(VERIF, "check"), pid, "--root", d, "--no-evidence", "--tier", "quick"],
+                                   capture_output=True, text=True, cwd=VERIF, timeout=300,
+                                   env=dict(os.environ, VERIF_NO_SELFTEST="1"))
+                res.append((pid, p.returncode, p.stdout + p.stderr))
+            except subprocess.TimeoutExpired:
+                res.append((pid, -9, "TIMEOUT after 300 s"))
     finally:
         shutil.rmtree(d, ignore_errors=True)
     want = m["expect"]          # 'fire' | 'silent'
